@@ -64,6 +64,53 @@ pub fn run(ctx: &mut Ctx) {
             ctx.rng = rng;
         }
     }
+    // (S4) peer-supplied certificates with boundary validity dates (1970-01-01T00:00:00Z and the seconds after it,
+    // 2038, 2049/2050, 9999-12-31T23:59:59Z, notAfter before notBefore): in an issuerAuth x5chain handed to the reader
+    // and in a readerAuth x5chain handed to the device; trusted and untrusted registries
+    {
+        let mut rng: StdRng = ctx.rng.clone();
+        if let Some(sc) = rauth::scene_with_key(&mut rng, None) {
+            let secs: [u64; 14] = [0, 1, 59, 299, 300, 301, 86_399, 2_147_483_647, 2_147_483_648, 2_524_607_999, 2_524_608_000, 4_102_444_800, 253_402_300_798, 253_402_300_799];
+            let mut certs: Vec<(String, Vec<u8>, Vec<u8>)> = vec![];
+            for (i, nb) in secs.iter().enumerate() {
+                for na in [secs[(i + 1) % secs.len()], 253_402_300_799, 0] {
+                    let k = p256::ecdsa::SigningKey::random(&mut rng);
+                    let ds = crate::pki::leaf_cert_valid(&k, &sc.pki.iaca_key, "CN=Test IACA,C=US", "CN=Test DS,C=US", crate::pki::EKU_DS, 50 + i as u64, *nb, na);
+                    let rd = crate::pki::leaf_cert_valid(&k, &sc.pki.reader_ca_key, "CN=Test Reader CA,C=US", "CN=Test Reader,C=US", crate::pki::EKU_READER, 70 + i as u64, *nb, na);
+                    if let (Some(ds), Some(rd)) = (ds, rd) { certs.push((format!("notBefore={nb} notAfter={na}"), der::Encode::to_der(&ds).unwrap(), der::Encode::to_der(&rd).unwrap())); }
+                }
+            }
+            let first: std::collections::BTreeMap<String, Vec<String>> = [(NS.to_string(), vec!["family_name".to_string()])].into_iter().collect();
+            let dev_regs = [isomdl::definitions::x509::trust_anchor::TrustAnchorRegistry::default(), registry(vec![(sc.pki.reader_ca.clone(), isomdl::definitions::x509::trust_anchor::TrustPurpose::ReaderCa)])];
+            for (name, ds_der, rd_der) in certs {
+                // reader side
+                let mut pt = sc.plaintext.clone();
+                if let Some(Value::Array(docs)) = rauth::map_get_mut(&mut pt, "documents") {
+                    if let Some(Value::Array(ia)) = rauth::map_get_mut(&mut docs[0], "issuerSigned").and_then(|i| rauth::map_get_mut(i, "issuerAuth")) {
+                        ia[1] = Value::Map(vec![(Value::Integer(33.into()), bytes(&ds_der))]);
+                    }
+                }
+                let mut rdr = sc.rdr.clone();
+                let rk = rdr_view(&rdr);
+                let msg = session_data(Some(&aes_encrypt(&rk.sk_device, &iso_iv(true, rk.device_ctr as u32 + 1), &to_bytes(&pt))), None);
+                attempt(ctx, "handle_response(certificate dates)", hex::encode(name.as_bytes()), move || { let o = rdr.handle_response(&msg); if o.errors.is_empty() { "handled" } else { "errors" } });
+                // device side: a fresh device session per registry, request with a readerAuth carrying the certificate
+                for reg in dev_regs.iter() {
+                    let (m, _) = issue(&mut rng, &sc.pki, MDL, [(NS.to_string(), [("family_name".to_string(), Value::Text("Doe".into()))].into_iter().collect())].into_iter().collect(), isomdl::definitions::DigestAlgorithm::SHA256, false);
+                    let Ok(e) = establish(documents_of(vec![m]), None, &first, Default::default(), reg.clone()) else { continue };
+                    let request = Value::Map(vec![(text("version"), text("1.0")), (text("docRequests"), arr(vec![Value::Map(vec![
+                        (text("itemsRequest"), Value::Tag(24, Box::new(bytes(&to_bytes(&Value::Map(vec![(text("docType"), text(MDL)), (text("nameSpaces"), Value::Map(vec![(text(NS), Value::Map(vec![(text("family_name"), Value::Bool(false))]))]))])))))),
+                        (text("readerAuth"), arr(vec![bytes(&[0xa1, 0x01, 0x26]), Value::Map(vec![(Value::Integer(33.into()), bytes(&rd_der))]), Value::Null, bytes(&[7; 64])])),
+                    ])]))]);
+                    let mut dev = e.dev;
+                    let (k, _) = dev_view(&dev);
+                    let msg = session_data(Some(&aes_encrypt(&k.sk_reader, &iso_iv(false, k.reader_ctr as u32 + 1), &to_bytes(&request))), None);
+                    attempt(ctx, "handle_request(certificate dates)", hex::encode(name.as_bytes()), move || { let o = dev.handle_request(&msg); if o.errors.is_empty() { "handled" } else { "errors" } });
+                }
+            }
+        }
+        ctx.rng = rng;
+    }
     let per_scene = ctx.budget(2400, 60000);
     let scenes = ctx.budget(3, 40);
     for _ in 0..scenes {
